@@ -133,6 +133,8 @@ package ply
 //@ spec sp(e Element, j int) ScalarProperty = as(e.Properties[j], ScalarProperty)
 //@ spec knownType(t ScalarPropertyType) bool = t == Char || t == UChar || t == Short || t == UShort || t == Int || t == UInt || t == Float || t == Double
 //@ spec allScalar(e Element) bool = forall j int :: 0 <= j && j < len(e.Properties) ==> typeIs(e.Properties[j], ScalarProperty) && knownType(sp(e, j).Type)
+//@ spec oneType(e Element) bool = forall c int :: 0 <= c && c < len(e.Properties) ==> sp(e, c).Type == sp(e, 0).Type
+//@ spec named(e Element, name string, n int) bool = exists c int :: 0 <= c && c < n && sp(e, c).PropertyName == name
 //@ spec colOff(e Element, j int) int
 //@ spec colOffDefined(e Element) bool = colOff(e, 0) == 0 && (forall j int :: 0 <= j && j < len(e.Properties) ==> colOff(e, j + 1) == colOff(e, j) + sp(e, j).Size())
 //@ spec asciiCol(e Element, name string, col int, t ScalarPropertyType) bool = exists c int :: 0 <= c && c < len(e.Properties) && sp(e, c).PropertyName == name && col == c && sp(e, c).Type == t
@@ -154,6 +156,9 @@ package ply
 //@   exit record_size: totalSize == colOff(element, len(element.Properties))
 //@   exit reader_holds_what_was_found: r != nil ==> typeIs(r, ptr_builtBinaryVector3PropertyReader) && (let b = deref(as(r, ptr_builtBinaryVector3PropertyReader)) in
 //@       b.xOffset == xOffset && b.yOffset == yOffset && b.zOffset == zOffset && b.scalarType == scalarType && len(b.arr) == element.Count && b.modelAttribute == v3pr.ModelAttribute)
+//@   exit x_found_when_present_in_a_single_type_element: oneType(element) ==> (xOffset > -1 <==> named(element, v3pr.PlyPropertyX, len(element.Properties)))
+//@   exit y_found_when_present_in_a_single_type_element: oneType(element) ==> (yOffset > -1 <==> named(element, v3pr.PlyPropertyY, len(element.Properties)))
+//@   exit z_found_when_present_in_a_single_type_element: oneType(element) ==> (zOffset > -1 <==> named(element, v3pr.PlyPropertyZ, len(element.Properties)))
 //@   loop 1:
 //@     invariant 0 <= $i && $i <= len(element.Properties) && totalSize == colOff(element, $i) && totalSize >= 0
 //@     invariant xOffset >= -1 && yOffset >= -1 && zOffset >= -1
@@ -161,6 +166,10 @@ package ply
 //@     invariant x_col: xOffset > -1 ==> binCol(element, v3pr.PlyPropertyX, xOffset, scalarType)
 //@     invariant y_col: yOffset > -1 ==> binCol(element, v3pr.PlyPropertyY, yOffset, scalarType)
 //@     invariant z_col: zOffset > -1 ==> binCol(element, v3pr.PlyPropertyZ, zOffset, scalarType)
+//@     invariant single_type_so_far: oneType(element) ==> scalarType == "" || scalarType == sp(element, 0).Type
+//@     invariant x_found_so_far: oneType(element) ==> (xOffset > -1 <==> named(element, v3pr.PlyPropertyX, $i))
+//@     invariant y_found_so_far: oneType(element) ==> (yOffset > -1 <==> named(element, v3pr.PlyPropertyY, $i))
+//@     invariant z_found_so_far: oneType(element) ==> (zOffset > -1 <==> named(element, v3pr.PlyPropertyZ, $i))
 
 //@ func Vector2PropertyReader.buildBinary
 //@   props C08
@@ -174,12 +183,17 @@ package ply
 //@   exit record_size: totalSize == colOff(element, len(element.Properties))
 //@   exit reader_holds_what_was_found: xOffset > -1 && yOffset > -1 ==> typeIs(r, ptr_builtVector2PropertyReader) && (let b = deref(as(r, ptr_builtVector2PropertyReader)) in
 //@       b.xOffset == xOffset && b.yOffset == yOffset && b.scalarType == scalarType && len(b.arr) == element.Count && b.modelAttribute == v2pr.ModelAttribute)
+//@   exit x_found_when_present_in_a_single_type_element: oneType(element) ==> (xOffset > -1 <==> named(element, v2pr.PlyPropertyX, len(element.Properties)))
+//@   exit y_found_when_present_in_a_single_type_element: oneType(element) ==> (yOffset > -1 <==> named(element, v2pr.PlyPropertyY, len(element.Properties)))
 //@   loop 1:
 //@     invariant 0 <= $i && $i <= len(element.Properties) && totalSize == colOff(element, $i) && totalSize >= 0
 //@     invariant xOffset >= -1 && yOffset >= -1
 //@     invariant no_type_no_columns: scalarType == "" ==> xOffset == -1 && yOffset == -1
 //@     invariant x_col: xOffset > -1 ==> binCol(element, v2pr.PlyPropertyX, xOffset, scalarType)
 //@     invariant y_col: yOffset > -1 ==> binCol(element, v2pr.PlyPropertyY, yOffset, scalarType)
+//@     invariant single_type_so_far: oneType(element) ==> scalarType == "" || scalarType == sp(element, 0).Type
+//@     invariant x_found_so_far: oneType(element) ==> (xOffset > -1 <==> named(element, v2pr.PlyPropertyX, $i))
+//@     invariant y_found_so_far: oneType(element) ==> (yOffset > -1 <==> named(element, v2pr.PlyPropertyY, $i))
 
 //@ func Vector2PropertyReader.buildAscii
 //@   props C08
@@ -191,12 +205,17 @@ package ply
 //@   exit reader_iff_all_found: (r != nil) <==> (xOffset > -1 && yOffset > -1)
 //@   exit reader_holds_what_was_found: xOffset > -1 && yOffset > -1 ==> typeIs(r, ptr_builtAsciiVector2PropertyReader) && (let b = deref(as(r, ptr_builtAsciiVector2PropertyReader)) in
 //@       b.xOffset == xOffset && b.yOffset == yOffset && b.scalarType == scalarType && len(b.arr) == element.Count && b.modelAttribute == v2pr.ModelAttribute)
+//@   exit x_found_when_present_in_a_single_type_element: oneType(element) ==> (xOffset > -1 <==> named(element, v2pr.PlyPropertyX, len(element.Properties)))
+//@   exit y_found_when_present_in_a_single_type_element: oneType(element) ==> (yOffset > -1 <==> named(element, v2pr.PlyPropertyY, len(element.Properties)))
 //@   loop 1:
 //@     invariant 0 <= $i && $i <= len(element.Properties)
 //@     invariant xOffset >= -1 && yOffset >= -1
 //@     invariant no_type_no_columns: scalarType == "" ==> xOffset == -1 && yOffset == -1
 //@     invariant x_col: xOffset > -1 ==> asciiCol(element, v2pr.PlyPropertyX, xOffset, scalarType)
 //@     invariant y_col: yOffset > -1 ==> asciiCol(element, v2pr.PlyPropertyY, yOffset, scalarType)
+//@     invariant single_type_so_far: oneType(element) ==> scalarType == "" || scalarType == sp(element, 0).Type
+//@     invariant x_found_so_far: oneType(element) ==> (xOffset > -1 <==> named(element, v2pr.PlyPropertyX, $i))
+//@     invariant y_found_so_far: oneType(element) ==> (yOffset > -1 <==> named(element, v2pr.PlyPropertyY, $i))
 
 //@ func Vector3PropertyReader.buildAscii
 //@   props C08
@@ -209,6 +228,9 @@ package ply
 //@   exit reader_iff_all_found: (r != nil) <==> (xOffset > -1 && yOffset > -1 && zOffset > -1)
 //@   exit reader_holds_what_was_found: xOffset > -1 && yOffset > -1 && zOffset > -1 ==> typeIs(r, ptr_builtAsciiVector3PropertyReader) && (let b = deref(as(r, ptr_builtAsciiVector3PropertyReader)) in
 //@       b.xOffset == xOffset && b.yOffset == yOffset && b.zOffset == zOffset && b.scalarType == scalarType && len(b.arr) == element.Count && b.modelAttribute == v3pr.ModelAttribute)
+//@   exit x_found_when_present_in_a_single_type_element: oneType(element) ==> (xOffset > -1 <==> named(element, v3pr.PlyPropertyX, len(element.Properties)))
+//@   exit y_found_when_present_in_a_single_type_element: oneType(element) ==> (yOffset > -1 <==> named(element, v3pr.PlyPropertyY, len(element.Properties)))
+//@   exit z_found_when_present_in_a_single_type_element: oneType(element) ==> (zOffset > -1 <==> named(element, v3pr.PlyPropertyZ, len(element.Properties)))
 //@   loop 1:
 //@     invariant 0 <= $i && $i <= len(element.Properties)
 //@     invariant xOffset >= -1 && yOffset >= -1 && zOffset >= -1
@@ -216,6 +238,10 @@ package ply
 //@     invariant x_col: xOffset > -1 ==> asciiCol(element, v3pr.PlyPropertyX, xOffset, scalarType)
 //@     invariant y_col: yOffset > -1 ==> asciiCol(element, v3pr.PlyPropertyY, yOffset, scalarType)
 //@     invariant z_col: zOffset > -1 ==> asciiCol(element, v3pr.PlyPropertyZ, zOffset, scalarType)
+//@     invariant single_type_so_far: oneType(element) ==> scalarType == "" || scalarType == sp(element, 0).Type
+//@     invariant x_found_so_far: oneType(element) ==> (xOffset > -1 <==> named(element, v3pr.PlyPropertyX, $i))
+//@     invariant y_found_so_far: oneType(element) ==> (yOffset > -1 <==> named(element, v3pr.PlyPropertyY, $i))
+//@     invariant z_found_so_far: oneType(element) ==> (zOffset > -1 <==> named(element, v3pr.PlyPropertyZ, $i))
 
 //@ func Vector4PropertyReader.buildBinary
 //@   props C08
@@ -232,6 +258,10 @@ package ply
 //@   exit record_size: totalSize == colOff(element, len(element.Properties))
 //@   exit reader_holds_what_was_found: xOffset > -1 && yOffset > -1 && zOffset > -1 && wOffset > -1 ==> typeIs(r, ptr_builtVector4PropertyReader) && (let b = deref(as(r, ptr_builtVector4PropertyReader)) in
 //@       b.xOffset == xOffset && b.yOffset == yOffset && b.zOffset == zOffset && b.wOffset == wOffset && b.scalarType == scalarType && len(b.arr) == element.Count && b.modelAttribute == v4pr.ModelAttribute)
+//@   exit x_found_when_present_in_a_single_type_element: oneType(element) ==> (xOffset > -1 <==> named(element, v4pr.PlyPropertyX, len(element.Properties)))
+//@   exit y_found_when_present_in_a_single_type_element: oneType(element) ==> (yOffset > -1 <==> named(element, v4pr.PlyPropertyY, len(element.Properties)))
+//@   exit z_found_when_present_in_a_single_type_element: oneType(element) ==> (zOffset > -1 <==> named(element, v4pr.PlyPropertyZ, len(element.Properties)))
+//@   exit w_found_when_present_in_a_single_type_element: oneType(element) ==> (wOffset > -1 <==> named(element, v4pr.PlyPropertyW, len(element.Properties)))
 //@   loop 1:
 //@     invariant 0 <= $i && $i <= len(element.Properties) && totalSize == colOff(element, $i) && totalSize >= 0
 //@     invariant xOffset >= -1 && yOffset >= -1 && zOffset >= -1 && wOffset >= -1
@@ -240,6 +270,11 @@ package ply
 //@     invariant y_col: yOffset > -1 ==> binCol(element, v4pr.PlyPropertyY, yOffset, scalarType)
 //@     invariant z_col: zOffset > -1 ==> binCol(element, v4pr.PlyPropertyZ, zOffset, scalarType)
 //@     invariant w_col: wOffset > -1 ==> binCol(element, v4pr.PlyPropertyW, wOffset, scalarType)
+//@     invariant single_type_so_far: oneType(element) ==> scalarType == "" || scalarType == sp(element, 0).Type
+//@     invariant x_found_so_far: oneType(element) ==> (xOffset > -1 <==> named(element, v4pr.PlyPropertyX, $i))
+//@     invariant y_found_so_far: oneType(element) ==> (yOffset > -1 <==> named(element, v4pr.PlyPropertyY, $i))
+//@     invariant z_found_so_far: oneType(element) ==> (zOffset > -1 <==> named(element, v4pr.PlyPropertyZ, $i))
+//@     invariant w_found_so_far: oneType(element) ==> (wOffset > -1 <==> named(element, v4pr.PlyPropertyW, $i))
 
 //@ func Vector4PropertyReader.buildAscii
 //@   props C08
@@ -254,6 +289,10 @@ package ply
 //@   exit four_components_four_reader: xOffset > -1 && yOffset > -1 && zOffset > -1 && wOffset > -1 ==> r != nil
 //@   exit reader_holds_what_was_found: xOffset > -1 && yOffset > -1 && zOffset > -1 && wOffset > -1 ==> typeIs(r, ptr_builtAsciiVector4PropertyReader) && (let b = deref(as(r, ptr_builtAsciiVector4PropertyReader)) in
 //@       b.xOffset == xOffset && b.yOffset == yOffset && b.zOffset == zOffset && b.wOffset == wOffset && b.scalarType == scalarType && len(b.arr) == element.Count && b.modelAttribute == v4pr.ModelAttribute)
+//@   exit x_found_when_present_in_a_single_type_element: oneType(element) ==> (xOffset > -1 <==> named(element, v4pr.PlyPropertyX, len(element.Properties)))
+//@   exit y_found_when_present_in_a_single_type_element: oneType(element) ==> (yOffset > -1 <==> named(element, v4pr.PlyPropertyY, len(element.Properties)))
+//@   exit z_found_when_present_in_a_single_type_element: oneType(element) ==> (zOffset > -1 <==> named(element, v4pr.PlyPropertyZ, len(element.Properties)))
+//@   exit w_found_when_present_in_a_single_type_element: oneType(element) ==> (wOffset > -1 <==> named(element, v4pr.PlyPropertyW, len(element.Properties)))
 //@   loop 1:
 //@     invariant 0 <= $i && $i <= len(element.Properties)
 //@     invariant xOffset >= -1 && yOffset >= -1 && zOffset >= -1 && wOffset >= -1
@@ -262,6 +301,11 @@ package ply
 //@     invariant y_col: yOffset > -1 ==> asciiCol(element, v4pr.PlyPropertyY, yOffset, scalarType)
 //@     invariant z_col: zOffset > -1 ==> asciiCol(element, v4pr.PlyPropertyZ, zOffset, scalarType)
 //@     invariant w_col: wOffset > -1 ==> asciiCol(element, v4pr.PlyPropertyW, wOffset, scalarType)
+//@     invariant single_type_so_far: oneType(element) ==> scalarType == "" || scalarType == sp(element, 0).Type
+//@     invariant x_found_so_far: oneType(element) ==> (xOffset > -1 <==> named(element, v4pr.PlyPropertyX, $i))
+//@     invariant y_found_so_far: oneType(element) ==> (yOffset > -1 <==> named(element, v4pr.PlyPropertyY, $i))
+//@     invariant z_found_so_far: oneType(element) ==> (zOffset > -1 <==> named(element, v4pr.PlyPropertyZ, $i))
+//@     invariant w_found_so_far: oneType(element) ==> (wOffset > -1 <==> named(element, v4pr.PlyPropertyW, $i))
 
 //@ func Vector1PropertyReader.buildBinary
 //@   props C08
